@@ -1719,6 +1719,10 @@ impl UnifiedCommandExecutor {
             }
             
             BitCommand::SetBit { key, offset, value } => {
+                // The string grows to hold the bit: offsets are limited to 512 MB worth of bits
+                if offset >= 4_294_967_296 {
+                    return Ok(RespFrame::error("ERR bit offset is not an integer or out of range"));
+                }
                 let byte_offset = offset / 8;
                 let bit_offset = offset % 8;
                 
@@ -1746,16 +1750,23 @@ impl UnifiedCommandExecutor {
             BitCommand::BitCount { key, start, end } => {
                 match self.storage.get_string(db, &key)? {
                     Some(value) => {
+                        if value.is_empty() {
+                            return Ok(RespFrame::Integer(0));
+                        }
                         let (start_byte, end_byte) = if let (Some(s), Some(e)) = (start, end) {
                             let len = value.len() as isize;
-                            let start_pos = if s < 0 { (len + s).max(0) } else { s.min(len - 1) } as usize;
-                            let end_pos = if e < 0 { (len + e).max(0) } else { e.min(len - 1) } as usize;
-                            (start_pos, end_pos)
+                            let start_pos = if s < 0 { (len + s).max(0) } else { s };
+                            let end_pos = if e < 0 { (len + e).max(0) } else { e.min(len - 1) };
+                            // An empty range (start beyond the end of the range or of the string) counts nothing
+                            if start_pos > end_pos || start_pos >= len {
+                                return Ok(RespFrame::Integer(0));
+                            }
+                            (start_pos as usize, end_pos as usize)
                         } else {
-                            (0, value.len().saturating_sub(1))
+                            (0, value.len() - 1)
                         };
                         
-                        let slice = &value[start_byte..=end_byte.min(value.len().saturating_sub(1))];
+                        let slice = &value[start_byte..=end_byte];
                         let bit_count = slice.iter().map(|&byte| byte.count_ones() as i64).sum::<i64>();
                         Ok(RespFrame::Integer(bit_count))
                     }
